@@ -7,6 +7,7 @@ var registry = map[string]func() core.Engine{
 	"C02": func() core.Engine { return &C02{} },
 	"C03": func() core.Engine { return &C03{} },
 	"C04": func() core.Engine { return &C04{} },
+	"C05": func() core.Engine { return &C05{} },
 	"C06": func() core.Engine { return &C06{} },
 	"C07": func() core.Engine { return &C07{} },
 	"C08": func() core.Engine { return &C08{} },
